@@ -5,12 +5,21 @@ use crate::core::{Failure, Report};
 
 pub mod c01;
 pub mod c02;
+pub mod c05;
+pub mod c12;
+pub mod c12b;
+pub mod c13;
+pub mod c16;
 pub mod xfer;
 
 pub fn run(prop: &str, report: &Report) -> i32 {
     match prop {
         "C01" => c01::run(report),
         "C02" => c02::run(report),
+        "C05" => c05::run(report),
+        "C12" => c12::run(report),
+        "C13" => c13::run(report),
+        "C16" => c16::run(report),
         _ => {
             eprintln!("unknown property {prop}");
             2
@@ -22,6 +31,10 @@ pub fn replay(f: &Failure) -> i32 {
     match f.check.as_str() {
         "c01a" => crate::core::replay_case(f, c01::case_a),
         "c02" => crate::core::replay_case(f, c02::case),
+        "c05" => crate::core::replay_case(f, c05::case),
+        "c12a" => crate::core::replay_case(f, c12::case),
+        "c13" => crate::core::replay_case(f, c13::case),
+        "c16" => crate::core::replay_case(f, c16::case),
         other => {
             eprintln!("no replay handler for check {other}");
             2
